@@ -129,9 +129,27 @@ def lean_sources():
     return sorted(res)
 
 
-def grep_forbidden():
+def import_closure(modules):
+    """source files of the given Lean modules and of everything of this project they import, transitively"""
+    seen, todo = set(), list(modules)
+    while todo:
+        m = todo.pop()
+        if m in seen or not m.startswith("YowsupVerif"):
+            continue
+        path = os.path.join(LEAN, *m.split(".")) + ".lean"
+        if not os.path.exists(path):
+            continue
+        seen.add(m)
+        for line in open(path):
+            mm = re.match(r"\s*import\s+(\S+)", line)
+            if mm:
+                todo.append(mm.group(1))
+    return [os.path.join(LEAN, *m.split(".")) + ".lean" for m in sorted(seen)]
+
+
+def grep_forbidden(modules=None):
     hits = []
-    for p in lean_sources():
+    for p in (import_closure(modules) if modules else lean_sources()):
         if p.endswith("Audit.lean"):
             continue
         src = strip_comments(open(p).read())
@@ -289,8 +307,8 @@ class Check(object):
                 for (f, d), e in broken_decls.items():
                     self.obligations.append({"name": "%s:%s" % (f, d), "ok": False,
                                              "detail": "line %d: %s" % (e["line"], e["msg"])})
-            hits = grep_forbidden()
-            self.obligations.append({"name": "no sorry/admit/axiom/native_decide/bv_decide/implemented_by/unsafe in Lean sources",
+            hits = grep_forbidden(list(mod.LEAN_MODULES) + ["YowsupVerif.Drv." + x for x in ()])
+            self.obligations.append({"name": "no sorry/admit/axiom/native_decide/bv_decide/implemented_by/unsafe in the Lean sources this property's theorems are built from",
                                      "ok": not hits, "detail": "; ".join(hits[:5])})
             if ok and self.tier == "thorough" and os.environ.get("VERIF_NO_LEANCHECKER") != "1":
                 lok, lout = leanchecker(mod.LEAN_MODULES)
